@@ -109,6 +109,9 @@ func (af *AutoFile) Write(b []byte) (n int, err error) {
 		}
 	}
 
+	if err = gcmn.VerifPoint("file-write", af.Path); err != nil {
+		return
+	}
 	n, err = af.file.Write(b)
 	return
 }
